@@ -18,6 +18,12 @@ JAX_CALLABLE = {
 }
 
 
+REF_JAX_IMPORTS = '''
+def imports(self):
+    return "\\n".join(["import jax", "import jax.numpy as numpy", 'jax.config.update("jax_enable_x64", True)'])
+'''
+
+
 def return_arity(ctx: Ctx, rule: str):
     from . import util
 
@@ -212,6 +218,17 @@ def run(ctx: Ctx):
 
     missing_values_discipline(ctx, "R03.c")
     check_template_keywords(ctx, "R03.a")
+    # the header of the generated module: jax with 64-bit floats enabled and nothing else that changes how it runs
+    util.same_as_reference(
+        ctx,
+        "R03.b",
+        "codegen/jax.py",
+        "JaxCodeGenerator.imports",
+        REF_JAX_IMPORTS,
+        "header",
+        "import jax, jax.numpy as numpy, jax_enable_x64",
+        "JaxCodeGenerator.imports does not emit exactly `import jax`, `import jax.numpy as numpy` and the 64-bit switch: anything else in the header (a debug flag, another precision) changes what every generated function returns or whether it runs",
+    )
     from .c18 import check_generated_model
 
     check_generated_model(ctx, "R03.a")
@@ -240,6 +257,7 @@ def _run(ctx: Ctx):
     ctx.rule("R03.b", "every numpy.<name> a gotranx print method can emit under the jax printer is callable that way under jax.numpy; n-ary And/Or keep every operand; no unvetted override", floor=8)
     jax_callable(ctx, "R03.b")
     printers.check_no_unvetted_override(ctx, "R03.b", "jax")
+    printers.check_float_repr(ctx, "R03.b", "jax")
 
 
 def _branches(v, conds=()):
